@@ -3,7 +3,8 @@ From Coq Require Import String.
 From Coq Require Import ZArith List Bool.
 From LasV Require Import Lib.Base Lib.Layout Gen.GenHeaderLayout Gen.GenFormatBits Gen.GenDims Model.Las Model.LasSpec Model.HeaderOps
   Proofs.HeaderLen Proofs.VlrProofs Proofs.HeaderProofs Proofs.HeaderMisc Proofs.HeaderOpsProofs Model.HeaderObj Proofs.HeaderObjProofs
-  Model.HeaderAttr Proofs.HeaderAttrProofs Model.HeaderSession Proofs.HeaderSessionProofs.
+  Model.HeaderAttr Proofs.HeaderAttrProofs Model.HeaderSession Proofs.HeaderSessionProofs
+  Model.HeaderRoute Proofs.HeaderRouteProofs.
 Import ListNotations.
 Open Scope list_scope.
 Open Scope Z_scope.
@@ -176,6 +177,57 @@ Theorem C07_refreshing_edit_defeats_guard : forall o vl vb hs0,
   hs0 + len (abytes f "extra_header_bytes") + len vb + len (abytes f "extra_vlr_bytes") = aint f "offset_to_point_data".
 Proof. exact refreshing_edit_defeats_guard. Qed.
 Print Assumptions C07_refreshing_edit_defeats_guard.
+
+(* ---- every ROUTE that puts a header into a file (Model/HeaderRoute.v): LasWriter() / laspy.open(mode='w') / LasData.write open a
+   writer on a private copy of the caller's header whose statistics are reset; close() of a writer / an appender pours the statistics
+   gathered on the way into its header object and rewrites it in place ---- *)
+
+(* whatever the statistics and however it is written (first serialisation or in-place rewrite): every field that is neither
+   derived by write_to nor computed by the route is read back from the file as the caller's header held it *)
+Theorem C07_route_keeps_caller_fields : forall o st es h' bs rest n,
+  enc_header (with_stats (ho_fields o) st) (ho_vlrs o) es = Ok (h', bs) -> wf_header h' (ho_vlrs o) = true ->
+  In n (header_field_names (aint (ho_fields o) "version.minor")) -> derived_name n = false -> route_computed n = false ->
+  exists rh, dec_header (bs ++ rest) false = Ok rh /\ aget (rh_fields rh) n = Some (wval (ho_fields o) n).
+Proof. exact route_keeps_caller_fields. Qed.
+Print Assumptions C07_route_keeps_caller_fields.
+Theorem C07_route_open_keeps : forall o h' bs rest n,
+  route_open o = Ok (h', bs) -> wf_header h' (ho_vlrs o) = true ->
+  In n (header_field_names (aint (ho_fields o) "version.minor")) -> derived_name n = false -> route_computed n = false ->
+  exists rh, dec_header (bs ++ rest) false = Ok rh /\ aget (rh_fields rh) n = Some (wval (ho_fields o) n).
+Proof. exact route_open_keeps. Qed.
+Print Assumptions C07_route_open_keeps.
+Theorem C07_route_close_keeps : forall o st h' bs rest n,
+  route_close o st = Ok (h', bs) -> wf_header h' (ho_vlrs o) = true ->
+  In n (header_field_names (aint (ho_fields o) "version.minor")) -> derived_name n = false -> route_computed n = false ->
+  exists rh, dec_header (bs ++ rest) false = Ok rh /\ aget (rh_fields rh) n = Some (wval (ho_fields o) n).
+Proof. exact route_close_keeps. Qed.
+Print Assumptions C07_route_close_keeps.
+(* the caller's fields, by name, in the versions that have them: everything but the statistics and the EVLR bookkeeping - the
+   waveform pointer of 1.3 / 1.4 included (the names the routes reset are compared with LasHeader.partial_reset on every run) *)
+Theorem C07_caller_fields :
+  filter (fun n => negb (derived_name n) && negb (route_computed n)) (header_field_names 4)
+  = ["file_source_id"; "global_encoding"; "uuid"; "version.major"; "version.minor"; "system_identifier"; "generating_software";
+     "creation_yday"; "creation_year"; "point_format_id"; "point_size"; "scales[0]"; "scales[1]"; "scales[2]"; "offsets[0]"; "offsets[1]";
+     "offsets[2]"; "start_of_waveform"]%string
+  /\ existsb (String.eqb "start_of_waveform") (header_field_names 3) = true
+  /\ existsb (String.eqb "start_of_waveform") (header_field_names 2) = false.
+Proof. vm_compute. repeat split; reflexivity. Qed.
+Print Assumptions C07_caller_fields.
+(* LasData.update_header() (explicit, or through `las.points = ...`) is a data-sync operation: from 1.4 on it defines the waveform
+   pointer as 0, so on the routes through it the pointer is computed, not the caller's; everything else it does not compute stays,
+   and before 1.4 it computes the statistics only *)
+Theorem C07_update_header_keeps : forall h st n, sync_computed (aint h "version.minor") n = false ->
+  aget (update_header_fields h st) n = aget h n.
+Proof. exact update_header_keeps. Qed.
+Print Assumptions C07_update_header_keeps.
+Theorem C07_sync_computed_before_14 : forall mnr n, mnr < 4 -> sync_computed mnr n = route_computed n.
+Proof. exact sync_computed_before_14. Qed.
+Print Assumptions C07_sync_computed_before_14.
+(* necessity: a reset that also clears one of the caller's fields loses every non-zero value of it *)
+Theorem C07_reset_of_caller_field_loses_it : forall h n z, String.eqb n "zero" = false -> String.eqb n "signature" = false ->
+  aget h n = Some (VInt z) -> z <> 0 -> wval (reset_also n h) n <> wval h n.
+Proof. exact reset_also_loses. Qed.
+Print Assumptions C07_reset_of_caller_field_loses_it.
 
 Example C07_nonvacuous :
   valid_date 2024 12 31 = true /\ yday 2024 12 31 = 366 /\ of_yday 2023 59 = Some (2023, 2, 28)
